@@ -510,6 +510,7 @@ impl DateTimeParser {
         // However, the legacy IANA tz ids, like `EST5EDT`, are pretty much
         // nonsense as POSIX TZ strings since there is no DST transition rule.
         // So in cases of nonsense tz ids, we assume they are IANA tz ids.
+        let start = input;
         let mkconsumed = parse::slicer(input);
         let mut saw_number = false;
         loop {
@@ -536,7 +537,13 @@ impl DateTimeParser {
             use crate::tz::posix::PosixTimeZone;
 
             match PosixTimeZone::parse_prefix(consumed) {
-                Ok((posix_tz, input)) => {
+                Ok((posix_tz, remaining)) => {
+                    // `remaining` is whatever the POSIX TZ parser didn't
+                    // consume of `consumed`. But everything that comes
+                    // after `consumed` hasn't been parsed either, so it
+                    // must be part of what we report as unparsed too.
+                    let unparsed = remaining.len() + input.len();
+                    let input = &start[start.len() - unparsed..];
                     let kind = ParsedTimeZoneKind::Posix(posix_tz);
                     let value = ParsedTimeZone { input: original, kind };
                     Ok(Parsed { value, input })
